@@ -83,7 +83,7 @@ def gen_std(ctx, path):
 
 def other_surfaces(ctx):
     """operators (C10 driver) and blends / compositing (C08 driver) on their quick lattices, judged for finiteness here"""
-    bins = cargo_build(["ops", "blend"])
+    bins = cargo_build(["ops", "blend", "cam16"])
     nodes = ctx.p("nodes.json")
     json.dump({k: [None if r is None else list(r) for r in v] for k, v in NODES.items()}, open(nodes, "w"))
     out = []
@@ -93,6 +93,11 @@ def other_surfaces(ctx):
     tp = ctx.p("c07.blend.ndjson")
     run_bin(bins["blend"], ["--tier", "quick", "--out", tp], env={"VERIF_SEED": ctx.seed})
     out.append(("blend", tp))
+    # CAM16 partial colours given directly (lightness / brightness x chroma-like attribute on their boundary lattice):
+    # expansion to the full colour and the way back to XYZ, under several viewing conditions
+    tp = ctx.p("c07.cam16.ndjson")
+    run_bin(bins["cam16"], ["--pfin", 6 if ctx.quick else 40, "--out", tp], env={"VERIF_SEED": ctx.seed})
+    out.append(("cam16", tp))
     return out
 
 
@@ -135,7 +140,7 @@ def run(ctx):
         add_samples(ctx, tp, n=1, every=40009)
         for (line, ev, info, _) in res.rejected:
             why = info.strip().strip('"')
-            d = {"kind": ev["ev"], "class": why, "t": ev.get("t"), "from": ev.get("node") or ev.get("ty"), "to": ev.get("call") or ev.get("mode")}
+            d = {"kind": ev["ev"], "class": why, "t": ev.get("t"), "from": ev.get("node") or ev.get("ty") or ev.get("pk"), "to": ev.get("call") or ev.get("mode")}
             what = "%s %s %s: %s; event %s" % (ev.get("t"), d["from"], d["to"], why, json.dumps(ev)[:400])
             report(ctx, d, what, {"bin": tag, "event": ev, "trace_line": line})
     return finish(ctx, "model_checking",
